@@ -37,8 +37,11 @@ def one_pos_{L}(s: str) -> bool:
 def replay_one_pos_{L}(s):
     return _replay([s])
 """)
-    for i in range(1, lmax):
-        for j in range(1, lmax - i):
+    named_shapes = [(i, j) for i in range(1, lmax) for j in range(1, lmax - i)]
+    if quick:
+        named_shapes.append((1, 3))  # a value long enough to have an INNER character (newline inside a named value)
+    for i, j in named_shapes:
+        for _once in (0,):
             L = i + 1 + j
             chars = " and ".join((f"s[{k}] in NE" if k != i else f's[{k}] == "="') for k in range(L))
             nb1 = " or ".join(f"s[{k}] in NB" for k in range(i))
